@@ -47,8 +47,24 @@ func dv(s string) int {
 // ---- RuleASTNodes
 type ruleC struct{ m *schema.RuleASTNodes }
 
-func rk(k int) string               { return "k" + strconv.Itoa(k) }
-func unrk(s string) int             { return atoi(s[1:]) }
+// key texts: plain, with a control character, with a quote and a backslash, with DEL and a non-BMP non-printable rune -
+// what a JSON encoder has to escape its own way
+var keyTexts = []string{"k0", "k\x011\a", "k\"2\\", "k\x7f3\U000e0001", "k<4>&\u2028"}
+
+func rk(k int) string {
+	if k >= 0 && k < len(keyTexts) {
+		return keyTexts[k]
+	}
+	return "k" + strconv.Itoa(k)
+}
+func unrk(s string) int {
+	for i, t := range keyTexts {
+		if t == s {
+			return i
+		}
+	}
+	return atoi(s[1:])
+}
 func rv(v int) schema.RuleASTNode   { return schema.RuleASTNode{Value: strconv.Itoa(v)} }
 func unrv(v schema.RuleASTNode) int { return dv(v.Value) }
 
